@@ -6,10 +6,10 @@ use chrono::{DateTime, Utc};
 use log::debug;
 use serde::Serialize;
 use snafu::{ensure, ResultExt};
-use std::io::ErrorKind;
+use std::io::{ErrorKind, Write};
 use std::path::{Path, PathBuf};
 use std::sync::Arc;
-use tempfile::TempDir;
+use tempfile::{NamedTempFile, TempDir};
 use tokio::sync::{Mutex, RwLock, RwLockReadGuard, RwLockWriteGuard};
 
 /// `Datastore` persists TUF metadata files.
@@ -64,9 +64,22 @@ impl Datastore {
             what: format!("{file} in datastore"),
             path: path.clone(),
         })?;
-        tokio::fs::write(&path, bytes)
-            .await
-            .context(error::DatastoreCreateSnafu { path: &path })
+        // Write to a temporary file in the datastore directory and move it into place: a crash or
+        // a failed write (e.g. a full disk) must not leave a truncated document behind, because an
+        // unreadable document no longer protects against rollback.
+        let dir = lock.path().to_owned();
+        let dest = path.clone();
+        tokio::task::spawn_blocking(move || -> std::io::Result<()> {
+            let mut tmp = NamedTempFile::new_in(dir)?;
+            tmp.write_all(&bytes)?;
+            tmp.as_file().sync_all()?;
+            tmp.persist(dest).map_err(|e| e.error)?;
+            Ok(())
+        })
+        .await
+        .map_err(|e| std::io::Error::new(ErrorKind::Other, e))
+        .and_then(|result| result)
+        .context(error::DatastoreCreateSnafu { path: &path })
     }
 
     /// Deletes a file from the datastore. This function is thread safe.
